@@ -562,3 +562,118 @@ def client_frames(fmt, stream: bytes, cuts=None, decoder_kwargs=None, settle_s=2
         await c.close()
     s.run(main)
     return [canon(m) for _, m in s.received]
+
+
+# ---- options passed through a gateway client: client(options) must deliver what a bare decoder(options) returns -------------------
+def render_messages(kind, msgs):
+    """msgs: list of dict(pgn, src, dest, prio, payload) -> list of byte chunks, one per packet/line, in the client's wire format
+    (frame formats: fast-packet PGNs segmented with a per-stream sequence counter)."""
+    from . import canboat, wire
+    db = canboat.db()
+    seqs = {}
+    out = []
+    for m in msgs:
+        pgn, src, dest, prio, payload = m["pgn"], m["src"], m["dest"], m.get("prio", 3), m["payload"]
+        if kind == "actisense":
+            out.append((wire.actisense(pgn, src, dest, prio, payload) + "\r\n").encode())
+            continue
+        fast = any(d.fast for d in db.by_pgn.get(pgn, []))
+        if fast:
+            k = (pgn, src, dest)
+            seqs[k] = (seqs.get(k, -1) + 1) % 8
+            frames = wire.segment(payload, seqs[k])
+        else:
+            frames = [payload[:8]]
+        i = wire.ident(pgn, src, dest, prio)
+        for fr in frames:
+            if kind == "ebyte":
+                out.append(wire.ebyte(i, fr))
+            elif kind == "waveshare":
+                out.append(wire.usb(i, fr))
+            else:
+                out.append((wire.yd(i, fr) + "\r\n").encode())
+    return out
+
+
+def bare_decoder_delivery(kind, chunks, decoder_kwargs=None, dec=None):
+    """The messages a bare decoder with the same options returns for the same packets (objects, not canonical forms)."""
+    from nmea2000.decoder import NMEA2000Decoder
+    dec = dec or NMEA2000Decoder(**(decoder_kwargs or {}))
+    out = []
+    for p in chunks:
+        try:
+            if kind == "ebyte":
+                m = dec.decode_tcp(p)
+            elif kind == "waveshare":
+                m = dec.decode_usb(p)
+            elif kind == "yd":
+                m = dec.decode_yacht_devices_string(p.decode().strip())
+            else:
+                m = dec.decode_actisense_string(p.decode().strip())
+        except Exception:
+            m = None
+        if m is not None:
+            out.append(m)
+    return out, dec
+
+
+def client_passthrough(kind, chunks, client_kwargs=None, reconnect_before=(), companions=0):
+    """Feed the chunks to a client of `kind` built with client_kwargs over a healthy link; before the chunk indices in reconnect_before the
+    gateway drops the connection and the client reconnects (nothing is in flight at that moment).  -> (delivered message objects, session)."""
+    s = Session(kind, client_kwargs=client_kwargs or {}, connect_plan=[("accept",)] * (2 + len(list(reconnect_before))))
+
+    async def main(s):
+        c = s.make_client()
+        await c.connect()
+        await asyncio.sleep(0.2)
+        for i, ch in enumerate(chunks):
+            if i in reconnect_before:
+                old = s.gw.link
+                old.eof()
+                for _ in range(2000):
+                    if s.gw.link is not old and c.state.name == "CONNECTED":
+                        break
+                    await asyncio.sleep(0.05)
+                await asyncio.sleep(0.2)
+            s.gw.link.feed(ch)
+            await asyncio.sleep(0.01)
+        await asyncio.sleep(2.0)
+        await c.close()
+    s.outcome = s.run(main)
+    return [m for _, m in s.received], s
+
+
+def passthrough_diff(kind, msgs, kwargs_factory, reconnect_before=()):
+    """Compare client(options) with decoder(options) on the same packets. kwargs_factory() -> fresh options dict (called twice: the
+    library may keep the caller's lists). -> list of (aspect, text); aspect in {session, count, header, fields, identity, hash}."""
+    from . import traffic
+    chunks = render_messages(kind, msgs)
+    # chunk index -> message index boundaries: reconnects happen between messages
+    bounds, n = [], 0
+    for m in msgs:
+        bounds.append(n)
+        n += len(render_messages(kind, [m]))
+    rb = {bounds[i] for i in reconnect_before if i < len(bounds)}
+    got, s = client_passthrough(kind, chunks, kwargs_factory(), reconnect_before=rb)
+    if s.outcome != "ok":
+        return [("session", f"session ended with {s.outcome}: {s.errors[:1]}")]
+    exp, _ = bare_decoder_delivery(kind, chunks, kwargs_factory())
+    passthrough_diff.last_delivered = len(got)
+    if len(got) != len(exp):
+        return [("count", f"client delivered {len(got)} messages {[m.id for m in got][:8]}, a decoder with the same options returns {len(exp)} {[m.id for m in exp][:8]}")]
+    out = []
+    for i, (g, e) in enumerate(zip(got, exp)):
+        a, b = traffic.canon(g), traffic.canon(e)
+        if a == b:
+            continue
+        if a[:5] != b[:5]:
+            out.append(("header", f"message {i}: {a[:5]} vs {b[:5]}"))
+        elif a[5] != b[5]:
+            d = [(x, y) for x, y in zip(a[5], b[5]) if x != y][:2]
+            out.append(("fields", f"message {i} ({g.id}): client {d[0][0] if d else a[5]} vs decoder {d[0][1] if d else b[5]}"))
+        elif a[6] != b[6]:
+            out.append(("identity", f"message {i} ({g.id}): sender identity {a[6][:60]} vs {b[6][:60]}"))
+        else:
+            out.append(("hash", f"message {i} ({g.id}): hash {a[7]} vs {b[7]}"))
+        break
+    return out
